@@ -108,6 +108,9 @@ class Handler(BaseHTTPRequestHandler):
                 State.log.append(('GET', path))
                 if sc is not None and 'alias_of' in sc:
                     sc = State.scripts.get(sc['alias_of'])
+                elif sc is not None and sc.get('conditional') and self.headers.get('If-Modified-Since'):
+                    State.log.append(('GET_304', path))
+                    return self._send(304, b'')           # a server honouring conditional requests
                 elif sc is not None and sc.get('redirect'):
                     return self._send(302, b'moved', headers=[('Location', sc['redirect'])])
                 beh = (sc['data'].pop(0) if sc and sc['data'] else 'exhausted')
@@ -119,7 +122,10 @@ class Handler(BaseHTTPRequestHandler):
             good = BODIES[sc['good']]
             if beh == 'garbage':
                 return self._send(200, b'<html><body>no such file</body></html>')
-            h = hashlib.md5(good if beh in ('correct', 'upper', 'latin1', 'latin1_undeclared') else b'something else').hexdigest()
+            h = hashlib.md5(good if beh in ('correct', 'upper', 'latin1', 'latin1_undeclared', 'multi') else b'something else').hexdigest()
+            if beh == 'multi':       # md5sum output for several files: the first line is this file's digest
+                return self._send(200, ('%s  file.bin\n%s  file.bin.orig\n%s  other.bin\n' % (
+                    h, hashlib.md5(BODIES['corrupt']).hexdigest(), hashlib.md5(CORRUPT + b'x').hexdigest())).encode())
             if beh == 'upper':
                 h = h.upper()
             if beh.startswith('latin1'):      # md5sum line naming a file with non-ASCII characters, served as ISO-8859-1
@@ -209,6 +215,9 @@ def run_shard(desc, ctx):
             extra.append({'data': dd, 'md5': 'correct', 'prior': pr, 'good': 'good', 'head': 'ok', 'honest_headers': True})
             extra.append({'data': dd, 'md5': 'latin1', 'prior': pr, 'good': 'good', 'head': 'ok'})
             extra.append({'data': dd, 'md5': 'latin1_undeclared', 'prior': pr, 'good': 'good', 'head': 'ok'})
+            extra.append({'data': dd, 'md5': 'multi', 'prior': pr, 'good': 'good', 'head': 'ok'})
+            extra.append({'data': dd, 'md5': 'correct', 'prior': pr, 'good': 'good', 'head': 'ok', 'conditional': True})
+            extra.append({'data': dd, 'md5': 'correct', 'prior': pr, 'good': 'good', 'head': 'ok', 'outpath': 'link_dotdot'})
     for i, c in enumerate(extra):
         if i % desc['n'] == desc['shard']:
             if c['data'][0].startswith('big'):
@@ -311,6 +320,11 @@ def run_case(case, ctx, shared=None):
     url = 'http://127.0.0.1:%d%s' % (srv.server_address[1], path)
     d = shared['dir'] if shared is not None else scratch_dir('c20_')
     out = os.path.join(d, 'file.bin')
+    if case.get('outpath') == 'link_dotdot' and shared is None:
+        # the target named through a symlinked directory and '..' (the OS resolves the link first)
+        os.makedirs(os.path.join(d, 'real', 'sub'))
+        os.symlink(os.path.join(d, 'real', 'sub'), os.path.join(d, 'link'))
+        out = os.path.join(d, 'link', '..', 'file.bin')
     good = case['good']
     prior_bytes = {'absent': None, 'valid': BODIES[good], 'corrupt': CORRUPT + b'x', 'empty': b''}[case['prior']]
     if shared is not None:
@@ -326,6 +340,8 @@ def run_case(case, ctx, shared=None):
         sc['redirect'] = mirror
     if case.get('honest_headers'):
         sc['honest_headers'] = True
+    if case.get('conditional'):
+        sc['conditional'] = True
     with State.lock:
         State.scripts[path] = sc
         if mirror:
@@ -356,11 +372,11 @@ def run_case(case, ctx, shared=None):
             all_md5_ok = True
             md5_served = md5_served or [case['md5']]
         # (1) the central safety property
-        strict = all(m in ('correct', 'wrong', 'missing', 'latin1') for m in
+        strict = all(m in ('correct', 'wrong', 'missing', 'latin1', 'multi') for m in
                      (case['md5'] if isinstance(case['md5'], list) else [case['md5']]))
         if r.ok and all_md5_ok:
             last = md5_served[-1]
-            pub = {'correct': published, 'upper': published, 'latin1': published, 'latin1_undeclared': published, 'garbage': None}.get(
+            pub = {'correct': published, 'upper': published, 'latin1': published, 'latin1_undeclared': published, 'multi': published, 'garbage': None}.get(
                 last, hashlib.md5(b'something else').hexdigest())
             if final is None or hashlib.md5(final).hexdigest() != pub:
                 ctx.violation('returned_with_bad_checksum', case,
